@@ -92,5 +92,22 @@ def explore(ctx):
             n += 1
         for _ in range({"quick": 6, "thorough": 60, "search": 12}[tier]):
             lines.append("pool q%d ctype=%d workers=%d rounds=%d seed=%d" % (n, rng.choice([1, 1, 2]), rng.choice([2, 8, 16]), {"quick": 150, "thorough": 1500, "search": 300}[tier], rng.below(10000))); n += 1
+        # both ends are the package: the same call uncompressed and compressed, for results, nil results, handler errors,
+        # unknown methods and protocols; then the uncompressed call again
+        for _ in range({"quick": 250, "thorough": 5000, "search": 600}[tier]):
+            ct = rng.choice([1, 1, 2, 2, 3, 77, 0])
+            arg = rng.choice(["-", "n", T(("b", b"")), T(mp.gen_value(rng, 2)), T([1, mp.gen_value(rng, 2)])])
+            how = rng.below(6)
+            if how == 0:
+                tail = "res=- err=%s method=known" % rng.bytes(1 + rng.below(12)).hex()
+            elif how == 1:
+                tail = "res=%s err=%s method=known" % (T(mp.gen_value(rng, 2)), rng.bytes(1 + rng.below(8)).hex())
+            elif how == 2:
+                tail = "res=- err=- method=%s" % rng.choice(["missing", "noproto"])
+            elif how == 3:
+                tail = "res=%s err=- method=known" % rng.choice(["-", "n", T(("b", b"")), T(("s", b""))])
+            else:
+                tail = "res=%s err=- method=known" % T(mp.gen_value(rng, 3))
+            lines.append("e2e e%d ctype=%d arg=%s %s" % (n, ct, arg, tail)); n += 1
     triples, tie = C.run_both(ctx, "TestVerifC06", lines, go_timeout=1500)
     return dict(verdicts=triples, tie=tie, stats=dict(cases=len(lines)))
